@@ -78,7 +78,11 @@ ROUTES = ('ctor', 'set_rules', 'file', 'ctor+own', 'set_rules+own',
           'set_rules-shared',
           # two policy directories: the rule set lives in the FIRST, a file of
           # the second is edited after the first load
-          'two-dirs-later-edited')
+          'two-dirs-later-edited',
+          # Enforcer(rules=..., overwrite=False), no main policy file, a policy
+          # directory that defines nothing of its own: the rules handed over
+          # stay, through a first load and through a directory edit
+          'ctor+dir-nooverwrite')
 
 
 def bound(tier):
@@ -244,6 +248,15 @@ def build(P, parse_rule, ruleset, cfg, route, w):
         w.write('second.d/b.yaml', world.dumps_policy(
             {'other': '!'} if ruleset else {}))
         return enf
+    if route == 'ctor+dir-nooverwrite':
+        w.write('policy.d/none.yaml', '{}\n')
+        conf = world.new_conf(w.root, **overrides)
+        rules = {k: parse_rule(v) for k, v in ruleset.items()}
+        enf = P.Enforcer(conf, rules=rules, overwrite=False, **kw)
+        for q in QUERIES:
+            enf.enforce(q, {}, {'roles': []})
+        w.write('policy.d/none.yaml', '# still nothing\n{}\n')
+        return enf
     if route == 'file+late':
         in_file = {k: v for k, v in ruleset.items() if k != 'x'}
         w.write('policy.yaml', world.dumps_policy(in_file))
@@ -382,7 +395,8 @@ def _row(acc, P, parse_rule, ruleset, cfg, route, via):
     if cfg[0] == 'set_defaults' and route not in ('file', 'set_rules'):
         return
     w = world.FileWorld() if route.startswith(('file', 'dir', 'reg',
-                                               'two-dirs')) else None
+                                               'two-dirs', 'ctor+dir')) \
+        else None
     # one route runs with the library's debug logging switched on
     debug = route == 'set_rules+own'
     if debug:
@@ -437,7 +451,8 @@ def replay(doc):
     from oslo_policy import _parser, policy as P
     c = doc['case']
     w = world.FileWorld() if c['route'].startswith(('file', 'dir', 'reg',
-                                                    'two-dirs')) \
+                                                    'two-dirs',
+                                                    'ctor+dir')) \
         else None
     try:
         enf = build(P, _parser.parse_rule, c['rules'], tuple(c['config']),
